@@ -354,6 +354,25 @@ def run(prog: Program, res: Result, tier: str) -> None:
         else:
             res.bad("J-REGISTRY", f"graph registry {c}", r.loc(),
                     f"{inst}: found {gp.get(c)!r}", instance=inst)
+    # a payload helper of the handler the writer calls for every descriptor
+    helper = None
+    helper_calls = []
+    for c in ast.walk(w.node):
+        if isinstance(c, ast.Call) and isinstance(c.func, ast.Attribute) \
+                and isinstance(c.func.value, ast.Name) and c.func.value.id in (
+                "JSONHandler", "cls", "self") and len(c.args) == 1 and \
+                norm(c.args[0]) == "stereo":
+            h = prog.classes["JSONHandler"].methods.get(c.func.attr) \
+                if "JSONHandler" in prog.classes else None
+            if h is not None and len(h.params()) >= 1:
+                helper = h
+                helper_calls.append(c)
+    if helper is not None:
+        from ..core import _Rename, clone
+        par = [p_ for p_ in helper.params() if p_ not in ("self", "cls")][0]
+        hnode = _Rename({par: ast.Name("stereo", ast.Load())}).visit(
+            clone(helper.node))
+        wtxt = wtxt + "\n" + utext(hnode)
     inst = "writer emits type(graph).__name__ / stereo.__class__.__name__"
     if "type(graph).__name__" in wtxt and (
             "stereo.__class__.__name__" in wtxt
@@ -377,6 +396,47 @@ def run(prog: Program, res: Result, tier: str) -> None:
                         w.loc(node), f"{inst}: payload is "
                         f"`{norm(node.values[0])}`, expected (stereo.atoms, "
                         "stereo.parity)", instance=inst)
+    if helper is not None and n_payload < 4:
+        singles = {}
+        for a in ast.walk(hnode):
+            if isinstance(a, ast.Assign) and len(a.targets) == 1 and \
+                    isinstance(a.targets[0], ast.Name):
+                singles.setdefault(a.targets[0].id, []).append(a.value)
+        for node in ast.walk(hnode):
+            if not (isinstance(node, ast.Dict) and len(node.keys) == 1 and norm(
+                    node.keys[0]) in ("stereo.__class__.__name__",
+                                      "type(stereo).__name__")):
+                continue
+            n_payload += len(helper_calls)
+            inst = f"writer payload in {helper.short}"
+            v = node.values[0]
+            if norm(v) == "(stereo.atoms, stereo.parity)":
+                res.ok("J-PAYLOAD", inst, helper.loc())
+                continue
+            a0 = v.elts[0] if isinstance(v, ast.Tuple) and len(
+                v.elts) == 2 else None
+            if isinstance(a0, ast.Name) and len(singles.get(a0.id, [])) == 1:
+                a0 = singles[a0.id][0]
+            if a0 is not None and norm(v.elts[1]) == "stereo.parity" and \
+                    isinstance(a0, ast.Call) and call_name(a0) in (
+                    "min", "max", "next") and a0.args and \
+                    "stereo._perm_atoms()" in norm(a0.args[0]):
+                # an element of the orbit: for an unspecified parity the
+                # orbit is every permutation of the atoms
+                pa = prog.classes["_StereoMixin"].methods.get("_perm_atoms") \
+                    if "_StereoMixin" in prog.classes else None
+                if pa is not None and "permutations(" in utext(pa.node):
+                    res.bad("J-PAYLOAD", f"writer payload {norm(a0, 60)}",
+                            helper.loc(), f"{inst}: the atoms written are "
+                            f"`{norm(a0, 80)}`; for a descriptor of "
+                            "unspecified parity `_perm_atoms` runs over ALL "
+                            "permutations of the atoms, so the centre / bond "
+                            "atoms leave their positions and the descriptor "
+                            "read back is over the same atoms but a different "
+                            "centre", instance=inst, context=["<decided>"])
+                    continue
+            res.unrecognised("J-PAYLOAD", inst, helper.loc(),
+                             f"payload `{norm(v, 80)}`")
     res.need("J-PAYLOAD", n_payload, 4, "payload sites in as_dict")
     ptxt = utext(pl.node)
     rets = [n for n in ast.walk(pl.node) if isinstance(n, ast.Return)
